@@ -2,6 +2,7 @@
 import Driver.Proto
 import BloomVerif.Model.Format
 import BloomVerif.Model.MergePlan
+import BloomVerif.Model.MergeKey
 namespace Driver
 open BloomVerif
 
@@ -77,6 +78,10 @@ def cmdFormat (cmd : String) : Option (P String) :=
   | "fgroups" => some do
       let cfg ← pCfg; let cs ← counted pCand
       pure (showGroups ((fileGroups cfg cs).map (·.map (·.id))))
+  | "mergekey" => some do
+      let p ← pBytes; let ks ← counted pBytes
+      let k := MergeKey.blockMergeKey (p.map (·.toNat)) (ks.map (·.map (·.toNat)))
+      pure (hexOfBytes (k.map UInt8.ofNat))
   | "within" => some do
       let cfg ← pCfg; let a ← pShape; let b ← pShape
       pure (b2s (within cfg a b))
